@@ -23,7 +23,7 @@ from .. import jweworld as JW
 ID = "C06"
 LEVEL = "fault_enumeration"
 SLICES = 240
-RUNS = {"quick": SLICES, "thorough": SLICES * 8}
+RUNS = {"quick": SLICES * 4, "thorough": SLICES * 40}
 BUDGET = {"quick": 75, "thorough": 1500}
 RULE = ("cells = algorithm (14 JWS + 21 JWE x 2 enc) x key variant (suitable; suitable with matching use / key_ops; other kty x4; "
         "other curve; EC<->OKP; Ed vs X curves; one octet short / long / empty, 8 or 16 octets short / long (other valid AES sizes); RSA-1024; use of the other kind; key_ops lacking "
